@@ -405,6 +405,8 @@ func (prophet *Prophet) ReportFailure(bp BundleDescriptor, sender cla.Convergenc
 		"peer":   sender,
 	}).Info("Failed to transmit bundle")
 
+	verifPoint("prophet.ReportFailure.read")
+
 	for i := 0; i < len(sentEids); i++ {
 		if sentEids[i] == sender.GetPeerEndpointID() {
 			sentEids = append(sentEids[:i], sentEids[i+1:]...)
